@@ -80,7 +80,7 @@ theorem lenDelim_nil (tag : UInt8) : lenDelim tag [] = [] := by simp [lenDelim]
 /-- a header of a known algorithm never marshals to the empty string (field 1 is present) -/
 theorem encHeader_ne_nil (h : Header) (hk : algoKnown h.algo = true) : encHeader h ≠ [] := by
   have h3 : h.algo = 1 ∨ h.algo = 2 ∨ h.algo = 3 := by
-    simpa [algoKnown] using hk
+    simp [algoKnown] at hk; omega
   have : algoToPB h.algo ≠ 0 := by
     unfold algoToPB; rw [if_pos h3]; omega
   simp [encHeader, varField, this]
